@@ -8,7 +8,7 @@ CONSTANT ResultFile, MaxReport
 Results == ndJsonDeserialize(ResultFile)
 VARIABLES l, viol, cnt
 ovars == <<l, viol, cnt>>
-Names == {"C17_EveryPageIsThePageDue", "C17_HasMoreIffFurtherPage", "C17_PreviousOffered", "C17_CursorAccepted", "C17_CursorStandsForSameQuery"}
+Names == {"C17_EveryPageIsThePageDue", "C17_HasMoreIffFurtherPage", "C17_PreviousOffered", "C17_CursorAccepted", "C17_CursorStandsForSameQuery", "C17_PageSizeAtLeastOne"}
 
 MinL(a, b) == IF a < b THEN a ELSE b
 Failing(r) ==
@@ -18,6 +18,7 @@ Failing(r) ==
         \cup T("C17_HasMoreIffFurtherPage", \A i \in 1..n : r.real[i].hasMore = r.steps[i].hasMore /\ r.real[i].hasMore = r.real[i].hasNext)
         \cup T("C17_PreviousOffered", \A i \in 1..n : r.real[i].hasPrev = r.steps[i].hasPrev)
         \cup T("C17_CursorAccepted", \A i \in 1..Len(r.real) : r.real[i].err = "")
+        \cup T("C17_PageSizeAtLeastOne", "pageSizeParam" \in DOMAIN r => (r.pageSizeErr \/ r.pageSize >= 1))
         \cup T("C17_CursorStandsForSameQuery", \A i \in 1..Len(r.real) : r.real[i].err # "" \/ r.real[i].cursorsRoundTrip)
 
 OInit == l = 0 /\ viol = {} /\ cnt = [n \in Names |-> 0] /\ TLCSet(1, {}) /\ TLCSet(2, [n \in Names |-> 0])
